@@ -4,7 +4,12 @@ different hashes (up to 60 per bin; treeification, shrinking, untreeify, resize 
 bins, concurrent writers) run on the real crate; after every step the inspector's dump of each tree
 bin and the number of Eq/Ord calls of lookups (present and absent keys) are validated by TLC against
 Trace_RB (ordered by (hash,key), red-black colouring, equal black height, parent/child and
-prev/next consistency, list set = tree set, comparisons <= 4*ceil(log2(n+1))+2)."""
+prev/next consistency, list set = tree set, comparisons <= 4*ceil(log2(n+1))+2).
+The algorithms themselves (TreeBin::new, find_or_put_tree_val, remove_tree_node, rotations,
+balance_insertion / balance_deletion, find_tree_node) are transcribed in TreeBinOps.tla: TLC checks the
+same invariants on every insertion / removal sequence (TreeBinRB.tla), and Trace_RBStep replays every
+recorded sequential step of the real crate through the transcription and demands the identical structure
+(links, colours, list order; treeification, "too small" answers and resize splits included)."""
 import random
 import time
 
@@ -49,6 +54,16 @@ def seq_job(rng, jid):
         else:
             ops.append({"op": "probe_cmp", "keys": keys + [K + 1, K + 2]})
     ops.append({"op": "probe_cmp", "keys": keys + [K + 1, K + 2]})
+    if rng.random() < 0.4:
+        # drain: remove until the bin reports "too small" and is turned back into a list, and beyond
+        rest = sorted(present)
+        rng.shuffle(rest)
+        for k in rest[:rng.randint(len(rest) // 2, len(rest))]:
+            if rng.random() < 0.15:
+                ops.append(gen.ins(k, u))          # replacement: the structure must not change
+            ops.append({"op": rng.choice(["remove", "remove_entry", "compute"]), "k": k, "f": "none", "n": u.next()})
+            present.discard(k)
+        ops.append({"op": "probe_cmp", "keys": keys})
     if shape == "split":
         # fill other bins until the table doubles: the tree bin is split into a low and a high bin
         filler = [1000 + i for i in range(0, 60)]
@@ -60,7 +75,7 @@ def seq_job(rng, jid):
     n = max(h) + 1
     table = [h.get(i, i) for i in range(n)]
     return {"id": jid, "cfg": "rb-" + shape, "kind": "map", "pin": rng.random() < 0.3, "scope": "thread",
-            "hasher": {"kind": "table", "table": table}, "cap": 43, "batch": 0, "prefix": ops, "threads": [], "finals": keys,
+            "hasher": {"kind": "table", "table": table}, "cap": 42, "batch": 0, "prefix": ops, "threads": [], "finals": keys,
             "check_each": True, "rec": ["snap", "site"]}
 
 
@@ -106,17 +121,55 @@ def run(pid, tier, seed, njobs=None):
         what = "cmp" if fu.get("e") == "cmp" else "shape"
         verdict.violation("%s:%s" % (what, job["cfg"]), rid, {"job": job2, "event": fu, "diagnosis": {k: d[k] for k in ("matched_events", "total_events")}},
                           "job %s: observation %d of %d violates the tree-bin invariants: %s" % (rid, d["matched_events"] + 1, d["total_events"], str(fu)[:400]))
+    # step-level conformance with the transcribed algorithms (TreeBinOps.tla): every sequential operation on a
+    # tree bin, every treeification and every resize split must produce exactly the structure the model computes
+    steps, sbyid = [], {}
+    for job, trace, crash in res:
+        if crash is None and trace["outcome"] == "Done" and not job.get("threads"):
+            sp = project.rbstep_projection(trace, job)
+            if sp["ev"]:
+                steps.append(sp)
+                sbyid[sp["id"]] = (job, sp)
+    sv = lib.validate_traces("Trace_RBStep", steps, "c06s", workers=8, timeout=2400)
+    for rid in sv["rejected"]:
+        job, sp = sbyid[rid]
+        d = lib.diagnose_trace("Trace_RBStep", sp, "c06s")
+        fu = d["first_unmatched"] or {}
+        verdict.violation("step:%s:%s" % (fu.get("e"), job["cfg"]), rid, {"job": job, "event": fu, "diagnosis": {k: d[k] for k in ("matched_events", "total_events")}},
+                          "job %s: step %d of %d (%s) leaves the tree bin in a structure the red-black algorithms do not produce: %s"
+                          % (rid, d["matched_events"] + 1, d["total_events"], fu.get("e"), str(fu)[:300]))
+    step_kinds = {}
+    for sp in steps:
+        for e in sp["ev"]:
+            step_kinds[e["e"]] = step_kinds.get(e["e"], 0) + 1
+    # binding self-test: one recorded colour flipped must be rejected
+    selftest = "skipped"
+    cand = next((sp for sp in steps if sp["id"] in sv["accepted"] and any(e["e"] == "ins" for e in sp["ev"])), None)
+    if cand is not None:
+        bad = {"id": "selftest", "ev": [dict(e) for e in cand["ev"]]}
+        i = next(i for i, e in enumerate(bad["ev"]) if e["e"] == "ins")
+        post = dict(bad["ev"][i]["post"])
+        post["nodes"] = [dict(n) for n in post["nodes"]]
+        post["nodes"][-1]["red"] = 1 - post["nodes"][-1]["red"]
+        bad["ev"][i] = dict(bad["ev"][i], post=post)
+        tv = lib.validate_traces("Trace_RBStep", [bad], "c06st", workers=1, timeout=600)
+        if "selftest" in tv["accepted"]:
+            raise lib.ToolError("Trace_RBStep accepted a step with a flipped colour: the step check is vacuous")
+        selftest = "a flipped colour in one recorded step is rejected"
     trees = sum(1 for p in projected for e in p["ev"] if e["e"] == "tree")
     cmps = sum(1 for p in projected for e in p["ev"] if e["e"] == "cmp" and e["n"] >= 8)
     maxn = max([len(e["nodes"]) for p in projected for e in p["ev"] if e["e"] == "tree"] or [0])
-    cov = {"states": max(v["states"], 1), "transitions": max(v["states"], 1), "traces_validated_against_impl": len(v["accepted"]),
+    cov = {"states": max(v["states"] + sv["states"], 1), "transitions": max(v["states"] + sv["states"], 1), "traces_validated_against_impl": len(v["accepted"]) + len(sv["accepted"]),
            "evaluations": len(jobs), "distinct_nontrivial": sum(1 for p in projected if any(e["e"] == "tree" and len(e["nodes"]) >= 12 for e in p["ev"])),
            "rule": "seeded insertion/removal sequences (ascending, descending, random) over 14..60 keys with equal hashes, four hash classes in one "
                    "bin, and tree bins split by a resize; plus scheduled concurrent writers/readers on a tree bin; non-trivial = a tree bin of >= 12 "
                    "nodes was observed",
            "samples": [{"tree_nodes": [(n["k"], n["red"]) for n in projected[0]["ev"][0]["nodes"]][:12]}] if projected and projected[0]["ev"][0]["e"] == "tree" else [{"n": 0}],
-           "tree_dumps_checked": trees, "lookup_counts_checked": cmps, "largest_tree_bin": maxn, "rejected": len(v["rejected"]),
+           "tree_dumps_checked": trees, "lookup_counts_checked": cmps, "largest_tree_bin": maxn, "rejected": len(v["rejected"]) + len(sv["rejected"]),
+           "step_conformance": {"runs": len(steps), "steps_by_kind": step_kinds, "accepted": len(sv["accepted"]), "selftest": selftest,
+                                "tlc": {"states": sv["states"], "wall_s": round(sv["wall"], 1)}},
            "tlc_trace_validation": {"states": v["states"], "distinct": v["distinct"], "wall_s": round(v["wall"], 1)}}
+    lib.add_spec_coverage(cov, pid, tier)
     rc = verdict.finish()
     lib.write_evidence(pid, tier, seed, "model_checking", cov, time.time() - t0, len(verdict.violations),
                        ["key Ord is total and agrees with Eq", "the inspector dumps the real links and colours", "TLC / SANY"])
